@@ -124,3 +124,54 @@ func VerifC11Sinks() {
 		zz.Assert(ok, "C11.invocation-sees-its-own-event-and-locals")
 	}
 }
+
+// VerifC11EcalReport: the error report as ECAL code sees it (addEventAndWait): one waited event fans out to two events on
+// the same sink (failing flags symbolic), two workers; every entry of the result names its own event and holds exactly the
+// error that invocation raised (type, detail, data) - nothing lost, duplicated or attributed to the other event.
+func VerifC11EcalReport() {
+	InbuildFuncMap["mark"] = &c11Mark{}
+	c11Marks = nil
+	erp, _ := zzProvider()
+	erp.Processor = engine.NewProcessor(2)
+	vs := zzScope()
+	f1, f2 := zz.Bool("failone"), zz.Bool("failtwo")
+	vs.SetValue("F1", f1)
+	vs.SetValue("F2", f2)
+	src := c11Src("s1", "a") +
+		"sink fan\n  kindmatch [ \"r\" ],\n  {\n    addEvent(\"eone\", \"a\", {\"fail\" : F1, \"id\" : \"one\"})\n    addEvent(\"etwo\", \"a\", {\"fail\" : F2, \"id\" : \"two\"})\n  }\n" +
+		"res := addEventAndWait(\"root\", \"r\", {})\n"
+	zz.ReportHeapRaces()
+	zz.ScheduleEraser(zz.Param("P", 1))
+	_, err := zzRun(erp, src, vs)
+	zz.Reach("evaluated")
+	zz.Assert(err == nil, "C11.setup")
+	if err != nil {
+		return
+	}
+	resv, _, _ := vs.GetValue("res")
+	want := 0
+	if f1 {
+		want++
+	}
+	if f2 {
+		want++
+	}
+	res, _ := resv.([]interface{})
+	zz.Assert(len(res) == want, "C11.error-of-failing-invocation-recorded-once")
+	seen := map[string]int{}
+	for _, it := range res {
+		item := it.(map[interface{}]interface{})
+		ev := item["event"].(map[interface{}]interface{})
+		errs := item["errors"].(map[interface{}]interface{})
+		id := "one"
+		fails := f1
+		if ev["name"] == "etwo" {
+			id, fails = "two", f2
+		}
+		seen[id]++
+		zz.Assert(fails && seen[id] == 1, "C11.error-attributed-to-its-event")
+		zz.Assert(len(errs) == 1, "C11.error-of-failing-invocation-recorded-once")
+		e, has := errs["s1"].(map[interface{}]interface{})
+		zz.Assert(has && e["type"] == "E"+id && e["detail"] == "detail "+id && e["data"] == interface{}(id), "C11.error-carries-what-its-invocation-produced")
+	}
+}
